@@ -231,11 +231,21 @@ def main(tier, replay=None):
                 builder = cdrive.CBuilder(scratch, cflags=("-O2",))
                 cases = []
                 for k in range(n_c):
-                    prog, rng = gen.rand_case(seed, 70000 + k + (5000 if optimize else 0),
-                                              p_ext=0.0 if optimize else 0.3)
+                    if k % 3 == 2 and not optimize:
+                        # "wire size == 8 * sizeof" coincidences (see gen.COINCIDENCE)
+                        prog, rng = gen.rand_case(seed, 70000 + k, max_bits=400, max_depth=3, **gen.COINCIDENCE)
+                    else:
+                        prog, rng = gen.rand_case(seed, 70000 + k + (5000 if optimize else 0),
+                                                  p_ext=0.0 if optimize else 0.3)
                     t = prog["rtype"]
                     vals = [gen.gen_value(rng, t, "ones"), gen.gen_value(rng, t, "rand")]
                     cases.append(cwire.CCase("c07-c%s-%d-%d" % ("O" if optimize else "", seed, k), prog, vals))
+                if not optimize:
+                    from . import ufull as _ufull
+                    for gi, gp in enumerate(_ufull.grid_progs(None if tier != "quick" else [4, 6, 7, 12, 24, 28, 56, 60])):
+                        grng = random.Random("c07grid/%d/%d" % (seed, gi))
+                        cases.append(cwire.CCase("c07-grid-%d" % gi, gp, [gen.gen_value(grng, gp["rtype"], "ones"),
+                                                                          gen.gen_value(grng, gp["rtype"], "rand")]))
                 built = cwire.prepare(cases, scratch, builder, optimize=optimize)
                 for c, lib in built:
                     if lib is None:
